@@ -20,6 +20,16 @@ func encodeXterm(key vaxis.Key, deckpam bool, decckm bool) string {
 	xtermMods := key.Modifiers & vaxis.ModShift
 	xtermMods |= key.Modifiers & vaxis.ModAlt
 	xtermMods |= key.Modifiers & vaxis.ModCtrl
+	if kp, ok := keypadCharacters[key.Keycode]; ok && key.Text == "" {
+		// a keypad digit or operator without text, as decoded from
+		// the SS3 code of a host in application keypad mode: the same
+		// code when the child asked for application mode as well, else
+		// the character of the key
+		if xtermMods == 0 && deckpam {
+			return "\x1BO" + string(kp.final)
+		}
+		key.Keycode = kp.char
+	}
 	if xtermMods == 0 && deckpam {
 		// keypad keys with a code of their own in application mode
 		if val, ok := applicationKeypad[key.Keycode]; ok {
@@ -151,6 +161,26 @@ type keycode struct {
 
 var applicationKeypad = map[rune]string{
 	vaxis.KeyKeyPadEnter: "\x1BOM",
+}
+
+var keypadCharacters = map[rune]struct{ final, char rune }{
+	vaxis.KeyKeyPad0:         {'p', '0'},
+	vaxis.KeyKeyPad1:         {'q', '1'},
+	vaxis.KeyKeyPad2:         {'r', '2'},
+	vaxis.KeyKeyPad3:         {'s', '3'},
+	vaxis.KeyKeyPad4:         {'t', '4'},
+	vaxis.KeyKeyPad5:         {'u', '5'},
+	vaxis.KeyKeyPad6:         {'v', '6'},
+	vaxis.KeyKeyPad7:         {'w', '7'},
+	vaxis.KeyKeyPad8:         {'x', '8'},
+	vaxis.KeyKeyPad9:         {'y', '9'},
+	vaxis.KeyKeyPadMultiply:  {'j', '*'},
+	vaxis.KeyKeyPadAdd:       {'k', '+'},
+	vaxis.KeyKeyPadSeparator: {'l', ','},
+	vaxis.KeyKeyPadSubtract:  {'m', '-'},
+	vaxis.KeyKeyPadDecimal:   {'n', '.'},
+	vaxis.KeyKeyPadDivide:    {'o', '/'},
+	vaxis.KeyKeyPadEqual:     {'X', '='},
 }
 
 var keypadTwins = map[rune]rune{
